@@ -1,5 +1,5 @@
 """C03 -- decoding honours the WIRE blockLength / numInGroup (schema extension), for random access."""
-import hgen, msggen, c01, c02, c04
+import hgen, msggen, c01, c02, c04, c12
 from hgen import P, M
 from msggen import SZ, pn, idx
 
@@ -51,4 +51,15 @@ def build(ctx):
                                             meta={"big_loops": ["ref_walk_%s.%d" % (msg.name, x) for x in range(16)]},
                                             desc="message %s.%s level %s under schema extension (wire blockLength up to compiled+%d at every level): %s %s found where the wire image puts it" % (sch.ns, msg.name, lv.name, E, kind, [a[0] for a in chunk]),
                                             bounds={"N": N, "G": G, "D": D, "E": E, "std": "c++" + std, "build": mode, "byte_order": "BE" if sch.be else "LE"}))
+    # wire blockLength over the WHOLE type range (an extension can be arbitrarily large): entry i of a flat group is at data start + i x wire blockLength
+    schd, incd = hgen.gen_headers(ctx, "vs_dims.xml")
+    pairs = [(n, b) for n in c12.U for b in c12.U]
+    for j in range(0, 16, 4):
+        chunk = pairs[j:j + 4]
+        u = ctx.lower("c12f", c12.cpp(chunk, []), std="17", mode="checked", incs=[incd])
+        for (n, b) in chunk:
+            hs.append(P.Harness("wide_stride_%s_%s_cxx17" % (n, b), c12.wide_harness(u, n, b), [u], unwind=4, backends=["z3", "minisat", "kissat"], cap=ctx.q(300, 900),
+                                extra_flags=["--no-standard-checks"],
+                                desc="flat group numInGroup=%s blockLength=%s: operator[] address with the wire blockLength over the whole type range" % (n, b),
+                                bounds={"blockLength": "full %s range (< 2^47)" % b, "numInGroup": "full %s range" % n, "i": "< 4"}))
     return hs
